@@ -395,6 +395,9 @@ pub fn remaining_file_content<'a>(input: &'a mut LineReader) -> Result<&'a str, 
         .is_some()
     {}
 
+    // The comment extends to the end of the file, so an IO error must not be mistaken for it.
+    input.reader.check_io_error()?;
+
     let bytes = input.reader.buf();
 
     match (std::str::from_utf8(bytes), bytes.last()) {
